@@ -5,6 +5,11 @@ import Ach.Driver.Hex
 # `recvalidate` correspondence stream: the real record validators vs the interpretation of their translations
 
     recvalidate <Type.Method> <recv flags|-> <param flags|-> <Field>=s:<hex>|i:<int>|b:<0|1> … @<hex "fn:arg">=<0|1> …
+    batchvalidate <BatchXXX.Validate> <flags|-> - <path>=s:<hex>|i:<int>|b:<0|1>|p|n|l:<k> …
+
+For batches the fields are keyed by their full path from the batch (`Header.ServiceClassCode`,
+`Entries[2].Addenda05[0].SequenceNumber`); `p` = a non-nil pointer to the record stored under that path, `n` = nil,
+`l:<k>` = a slice of k records.  Every record of the batch carries the same option flags.
 
 The program is looked up in the generated `validatorProgs` (translated from the Go source on this run) and run by
 `Ach.GoLite.run` on the given receiver fields and option flags.  Answers `accept`, `reject:<FieldName>`,
@@ -41,6 +46,12 @@ def parseTok (t : String) : Tok :=
         | none => .bad
       else if v = "b:1" then .field n (.bool true)
       else if v = "b:0" then .field n (.bool false)
+      else if v = "p" then .field n (.ref n)          -- a non-nil pointer: the record lives under the same path
+      else if v = "n" then .field n .nilp
+      else if v.startsWith "l:" then
+        match (v.drop 2).toString.toNat? with
+        | some k => .field n (.lst n k)               -- a slice of k records under n[0] … n[k-1]
+        | none => .bad
       else .bad
     | _ => .bad
 
